@@ -439,6 +439,8 @@ func init() {
 				Cached   bool   `json:"cached"`
 				Flushes  int    `json:"flushes"`
 				Held     int    `json:"held_in_child"`
+				Pos      int    `json:"incapable_child"`
+				After    int    `json:"children_after"`
 			}
 			if json.Unmarshal(ctx.Replay, &sp) == nil && sp.Stream != "" {
 				ctx.Case(sp, "", sp.Stream, "")
@@ -450,6 +452,13 @@ func init() {
 				case "overlapping-flush":
 					if got, f := c19Overlap(sp.Cached, sp.Children, sp.Flushes, sp.Held); f != "" {
 						ctx.Fail("every_flush_reaches_every_child_once", f, sp, got)
+					}
+				case "capabilities-evaluated-concurrently":
+					for k := 0; k < 5; k++ {
+						if f := c19Caps(sp.Cached, sp.Pos, sp.After); f != "" {
+							ctx.Fail("capabilities_are_the_conjunction", f, sp, nil)
+							break
+						}
 					}
 				}
 				return
@@ -479,6 +488,14 @@ func init() {
 			ctx.Case(cs, "", "child-panics-then-more-calls", "")
 			if f := c19AfterPanic(nk, bad, gauge); f != "" {
 				ctx.Fail("every_child_sees_every_call_once_in_order", f, cs, nil)
+			}
+		}
+		// Capabilities() while another goroutine evaluates it, and from several goroutines at once
+		for k := 0; k < 8; k++ {
+			cs := map[string]interface{}{"stream": "capabilities-evaluated-concurrently", "cached": k%2 == 1, "incapable_child": k / 2 % 3, "children_after": k / 4}
+			ctx.Case(cs, "", "capabilities-evaluated-concurrently", "")
+			if f := c19Caps(k%2 == 1, k/2%3, k/4); f != "" {
+				ctx.Fail("capabilities_are_the_conjunction", f, cs, nil)
 			}
 		}
 		// "every flush results in exactly one call on each child" also when flushes overlap: the first
